@@ -90,6 +90,26 @@ pub fn vx_str_from(s: &str, n: usize) -> (r: &str)
     &s[n..]
 }
 
+/// UTF-8: an ASCII character at the end takes one byte (trusted)
+pub broadcast axiom fn axiom_byte_len_last_ascii(s: Seq<char>)
+    requires
+        s.len() > 0,
+        (s.last() as u32) < 0x80,
+    ensures
+        #[trigger] byte_len(s) == byte_len(s.drop_last()) + 1,
+;
+
+/// `&s[0..n]`: panics unless n is a character boundary of s (N11)
+#[verifier::external_body]
+pub fn vx_str_upto(s: &str, n: usize) -> (r: &str)
+    requires
+        exists|k: int| 0 <= k <= s@.len() && #[trigger] byte_len(s@.take(k)) == n,
+    ensures
+        forall|k: int| 0 <= k <= s@.len() && #[trigger] byte_len(s@.take(k)) == n ==> r@ == s@.take(k),
+{
+    &s[0..n]
+}
+
 /// str::strip_suffix with a char pattern (N11)
 #[verifier::external_body]
 pub fn vx_strip_suffix_char(s: &str, c: char) -> (r: Option<&str>)
